@@ -102,7 +102,7 @@ def pair_jobs(prop, tier, dims=(1, 2, 3, 4)):
     for d in dims:
         n = {4: 4}.get(d, 1) if tier == "quick" else {3: 2, 4: 8}.get(d, 1)
         for sh in range(n):
-            jobs.append(Job("pairmc", cfg="san", defs=["-DPM_D=%d" % d], args=["--tier=" + tier, "--prop=" + prop, "--shard=%d" % sh, "--nshards=%d" % n]))
+            jobs.append(Job("pairmc", cfg="san", defs=["-DPM_D=%d" % d], libs=["-ltbb"], args=["--tier=" + tier, "--prop=" + prop, "--shard=%d" % sh, "--nshards=%d" % n]))
     return jobs
 
 
@@ -116,8 +116,8 @@ def reext_jobs(tier, prop="C06", dims=(1, 2, 3, 4)):
     return jobs
 
 
-PAIR_RULE = (" pairmc adds the COMPLETE grid of (destination, source) index-extension pairs per dimensionality 1..4 (same per-dimension menu as reextmc: empty, sizes 1..3, shifted index bases) x 14 forms "
-             "(copy/move/converting/other-allocator-type assignment, assignment from a whole view and a const view, copy/move/converting/view construction, swap, member swap, a=+b, self-assignment) x {int, tracked element}: "
+PAIR_RULE = (" pairmc adds the COMPLETE grid of (destination, source) index-extension pairs per dimensionality 1..4 (same per-dimension menu as reextmc: empty, sizes 1..3, shifted index bases) x 15 forms "
+             "(copy/move/converting/other-allocator-type assignment, assignment from a whole view and a const view, copy/move/converting/view construction, swap, member swap, a=+b, self-assignment, copy construction with an execution policy) x {int, tracked element, element with force_element_trivial_default_construction and a counted destructor}: "
              "destination extensions (sizes and index bases) and every element equal the source's, source unchanged or empty-valid-assignable after a move, no shared storage, no write-through, registry and ledger clean.")
 RECYCLE_RULE = (" The address an allocation returns is an environment answer owned by the harness: besides the default policy (no address is ever handed out twice within a history) the search is repeated with "
                 "the policy 'the most recently released block of the same byte size is handed out again', from the initial state and from a non-initial root (a filled, b empty), so that stale-pointer identity tests are reachable. "
